@@ -499,6 +499,11 @@ class Ratfun(object):
 
         var = self.var
 
+        # sym.roots may not find all the roots (for example, for a
+        # polynomial of degree 5 or higher); keep what is left of
+        # the numerator and denominator so the value is unchanged.
+        K = K * self._unfactored(self.Bpoly, zeros) / self._unfactored(self.Apoly, poles)
+
         if not combine_conjugates:
             return _zp2tf(zeros, poles, K, var) * undef
 
@@ -524,6 +529,22 @@ class Ratfun(object):
         result = K * result1 * result2
 
         return result
+
+    def _unfactored(self, poly, roots):
+        """Return monic polynomial `poly` divided by the product of
+        (var - root)**n for the `roots` found; this is 1 if all
+        the roots were found."""
+
+        num_roots = 0
+        for root, n in roots.items():
+            num_roots += n
+        if num_roots == poly.degree():
+            return One
+
+        found = sym.Poly(sym.Mul(*[(self.var - root)**n
+                                   for root, n in roots.items()]), self.var)
+        Q, R = sym.div(poly.monic(), found)
+        return Q.as_expr()
 
     def residues(self, combine_conjugates=False, damping=None):
         """Return residues of partial fraction expansion.
